@@ -127,6 +127,23 @@ def check_dynamic(ctx, rule="C02.T1"):
     ctx.ob(rule, q, ok, "the only refusal is an unsupported or disallowed format code" if ok else
            (f"Dynamic.decode also refuses depending on {list(known_extra)[:2]} (format codes {[oct(x) for x in list(known_extra.values())[0][:4]]}...): valid items of an allowed format are rejected (e.g. a byte length compared with an element count)" if known_extra else "") +
            f"Dynamic.decode refuses format codes {[oct(x) for x in refused if x not in want]} of defined items / accepts undefined {[oct(x) for x in want if x not in refused]}; a Dynamic([U1]) accepts {sorted(oct(x) for x in only_u1)}: valid items of an allowed format are rejected or disallowed ones accepted", key="only-refusal", where=f.where)
+    # the header reader itself refuses a code that differs from the receiving object's own `format_code` unless that is the
+    # wildcard -1: for a Dynamic (and every data item built on it) it must stay the class constant of Base, whatever it holds
+    redefined = []
+    dyn_classes = [repo.cls("Dynamic")] + list(repo.subclasses("Dynamic"))
+    # data items take their variable type from `__type__` (the metaclass makes it a base class)
+    dyn_classes += [c for c in repo.classes.values() if "__type__" in c.consts and norm(c.consts["__type__"]).rsplit(".", 1)[-1] == "Dynamic"]
+    for c in dyn_classes:
+        for k in c.mro:
+            if k.name == "Base":
+                break
+            if "format_code" in k.methods or ("format_code" in k.consts and repo.fold(k.consts["format_code"], k.module, k) != -1):
+                redefined.append(f"{c.name} (via {k.name})" if k is not c else c.name)
+    ctx.floor("classes built on Dynamic", len(dyn_classes), 20)
+    ok = not redefined and repo.const("Base", "format_code") == -1
+    ctx.ob(rule, "Dynamic.format_code", ok, f"Dynamic and its {len(dyn_classes) - 1} subclasses keep the wildcard format code -1: decode_item_header lets every code through to the type table" if ok else
+           f"{sorted(set(redefined))[:4]} give a Dynamic a format code of its own: decode_item_header then refuses every item of another format (e.g. a re-used ANYVALUE that held a U1 refuses a valid A item)",
+           key="wildcard", where=repo.cls("Dynamic").where)
     # an unrestricted Dynamic supports every entry
     ts = repo.cls("Dynamic").methods.get("__type_supported") or repo.cls("Dynamic").methods.get("_Dynamic__type_supported")
     ctx.require(ts is not None, "Dynamic.__type_supported not found")
